@@ -108,7 +108,7 @@ func (ec *evalCtx) resolveType(s string) types.Type {
 func ghostSort(s string) string {
 	s = strings.TrimSpace(s)
 	switch s {
-	case "int":
+	case "int", "ref":
 		return sortInt
 	case "bool":
 		return sortBool
@@ -722,6 +722,16 @@ func (ec *evalCtx) evalCall(c *ECall) Val {
 			return boolVal(sLe(ec.entryAlloc, v.T))
 		}
 		panic(vcErrorf("fresh of %v", v.K))
+	case "$update":
+		m := ec.eval(arg(0))
+		if m.K != KArr {
+			panic(vcErrorf("map update on a %v value", m.K))
+		}
+		k := ec.eval(arg(1))
+		v := ec.eval(arg(2))
+		r := m
+		r.T = sSto(m.T, k.T, v.T)
+		return r
 	case "min":
 		a, b := ec.evalInt(arg(0)), ec.evalInt(arg(1))
 		return mathInt(sIte(sLe(a, b), a, b))
